@@ -621,6 +621,12 @@ func (g *gen) addStruct(pkg *Pkg, file *File, exported bool) *tinfo {
 			if goKeyword(f.Name) || used[f.Name] {
 				f.Name += "x"
 			}
+			if used[f.Name] && g.o.gated("shadowed_promoted_field_in_union_struct") {
+				// the name of a field promoted from an embedded struct (legal Go: the outer field shadows it)
+				for used[f.Name] {
+					f.Name += "x"
+				}
+			}
 			used[f.Name] = true
 		}
 		unexp := !(f.Name[0] >= 'A' && f.Name[0] <= 'Z')
